@@ -222,6 +222,13 @@ def core(fx, rep, value_ty, evaluator, err_ty_prefix):
                         if st['k'] != 'SwitchInt' or not b.dominates(sb, bi):
                             continue
                         for term in pv.of_operand(st['discr']):
+                            if payload_of(term, 2, kind) and any(int(v) == 0 for v, _ in st['arms']):
+                                # literal pattern `(Int(l), Int(0)) => ..`: the switch is on the divisor itself
+                                zero_t = [tg for v, tg in st['arms'] if int(v) == 0][0]
+                                reach_zero = b.reachable_from([zero_t])
+                                errs = [s for blk in reach_zero for s in b.blocks[blk]['stmts']
+                                        if s['k'] == 'Assign' and s['rv']['k'] == 'Aggregate' and s['rv'].get('variant') == ZERO_ERR[opname]]
+                                found = found or (bi not in reach_zero and bool(errs))
                             if term[0] == 'binop' and term[1] in ('Eq', 'Ne'):
                                 x, y = term[2], term[3]
                                 if y == ('const', 0) and payload_of(x, 2, kind) or x == ('const', 0) and payload_of(y, 2, kind):
@@ -233,7 +240,7 @@ def core(fx, rep, value_ty, evaluator, err_ty_prefix):
                                     reach_zero = b.reachable_from([zero_t])
                                     errs = [s for blk in reach_zero for s in b.blocks[blk]['stmts']
                                             if s['k'] == 'Assign' and s['rv']['k'] == 'Aggregate' and s['rv'].get('variant') == ZERO_ERR[opname]]
-                                    found = bi not in reach_zero and bool(errs)
+                                    found = found or (bi not in reach_zero and bool(errs))
                     rep.check(found, 'R3', key, loc, 'divisor == 0 -> %s before checked_%s' % (ZERO_ERR[opname], opname),
                               'no dominating `divisor == 0` test returning %s before checked_%s (MIN %s -1 would be misreported or zero-division mislabelled)' % (ZERO_ERR[opname], opname, '/' if opname == 'div' else '%'))
         # ---- R4
